@@ -16,6 +16,8 @@ Require Import MD.Desc.AlgebraModel MD.Desc.AlgebraProofs.
 Require Import MD.Desc.MomentsModel MD.Desc.MomentsProofs.
 Require Import MD.Desc.RdfModel MD.Desc.RdfProofs.
 Require Import MD.Desc.KarplusProofs.
+Require Import MD.Desc.SchemeDsl MD.Gen.DescSchemes MD.Desc.SchemeSem.
+Require Import MD.Desc.OrderModel MD.Desc.OrderProofs.
 Close Scope Q_scope. Close Scope R_scope. Open Scope nat_scope.
 
 (* ================================================================== contacts *)
@@ -95,6 +97,25 @@ Theorem ca_scheme_filter_array_refuted :
                           ca_scan true top pairs = inl EAmbiguous.
 Proof. exact ca_scan_strict_refuted. Qed.
 Print Assumptions ca_scheme_filter_array_refuted.
+
+(* the atom sets of the schemes, the CA test and the constants of contacts='all' used by the model are the
+   ones written in contact.py today (predicates regenerated into Gen/DescSchemes.v on every run) *)
+Theorem contact_schemes_match_source :
+  (forall s r, src_membership1 s r = membership1 s r) /\
+  (forall r, src_ca_atoms r = ca_atoms r) /\
+  (forall r, src_has_ca r = has_ca r) /\
+  all_min_separation = 3 /\ all_same_chain = true.
+Proof. exact schemes_match_source. Qed.
+Print Assumptions contact_schemes_match_source.
+
+(* triclinic cells: the model distance is the squared length of a lattice image of the separation and no image
+   with |i|,|j|,|k| <= K is shorter *)
+Theorem contacts_triclinic_min_image : forall K a b c x y, (0 <= K)%Z ->
+  (forall i j k, (- K <= i <= K)%Z -> (- K <= j <= K)%Z -> (- K <= k <= K)%Z ->
+     (d2_tri K a b c x y <= image_d2 a b c x y i j k)%Z) /\
+  (exists i j k, d2_tri K a b c x y = image_d2 a b c x y i j k).
+Proof. exact d2_tri_min_image. Qed.
+Print Assumptions contacts_triclinic_min_image.
 
 (* squareform: entry (i,j) and (j,i) hold the distance of the pair labelled (i,j); all others are 0 *)
 Theorem squareform_labels : forall d pairs,
@@ -203,6 +224,57 @@ Theorem dipole_neutral_origin_independent : forall a qs xs,
 Proof. exact dipole_origin_independent. Qed.
 Print Assumptions dipole_neutral_origin_independent.
 
+(* ================================================================== order.py *)
+(* nematic Q tensor of non-zero directors: traceless and symmetric *)
+Theorem nematic_Q_traceless_symmetric : forall ds,
+  (forall d, In d ds -> ~ dot3 d d == 0) ->
+  tr3 (nematic_q ds) == 0 /\ (forall a b, nematic_entry a b ds == nematic_entry b a ds).
+Proof. exact nematic_traceless_symmetric. Qed.
+Print Assumptions nematic_Q_traceless_symmetric.
+
+(* what the correspondence tests about S2 (p(S2) = 0, p'(S2) >= 0, 3 S2 >= tr) characterises the largest
+   eigenvalue; _partial: that numpy's eigvals returns it is tested per case, not proved *)
+Theorem order_parameter_is_top_eigen_partial : forall s l x,
+  sf1 l == tr3 s -> sf2 l == e2_3 s -> sf3 l == det3 s -> vx l <= vy l -> vy l <= vz l ->
+  charpoly s x == 0 -> 0 <= charpoly' s x -> tr3 s <= (3 # 1) * x -> x == vz l.
+Proof.
+  intros s l x H1 H2 H3 Hab Hbc Hp Hd Hm.
+  destruct (charpoly_factored s l x H1 H2 H3) as [E E'].
+  rewrite E in Hp. rewrite E' in Hd. rewrite <- H1 in Hm.
+  exact (top_root_characterisation (vx l) (vy l) (vz l) x Hab Hbc Hp Hd Hm).
+Qed.
+Print Assumptions order_parameter_is_top_eigen_partial.
+
+(* same for the director: eigenvector of the smallest eigenvalue of the inertia tensor *)
+Theorem director_is_least_eigen_partial : forall s l x,
+  sf1 l == tr3 s -> sf2 l == e2_3 s -> sf3 l == det3 s -> vx l <= vy l -> vy l <= vz l ->
+  charpoly s x == 0 -> 0 <= charpoly' s x -> (3 # 1) * x <= tr3 s -> x == vx l.
+Proof.
+  intros s l x H1 H2 H3 Hab Hbc Hp Hd Hm.
+  destruct (charpoly_factored s l x H1 H2 H3) as [E E'].
+  rewrite E in Hp. rewrite E' in Hd. rewrite <- H1 in Hm.
+  exact (least_root_characterisation (vx l) (vy l) (vz l) x Hab Hbc Hp Hd Hm).
+Qed.
+Print Assumptions director_is_least_eigen_partial.
+
+Theorem order_parameter_nonnegative : forall a b c, a <= b -> b <= c -> a + b + c == 0 -> 0 <= c.
+Proof. exact traceless_top_nonneg. Qed.
+Print Assumptions order_parameter_nonnegative.
+
+(* inertia tensor: symmetric, and its trace is 2 M Rg^2 (mass-weighted Rg about the centre of mass) *)
+Theorem inertia_tensor_trace_symmetric : forall ms pts,
+  length ms = length pts -> ~ qsum ms == 0 ->
+  tr3 (inertia ms pts) == (2 # 1) * qsum ms * rg2_fix ms pts /\
+  (forall a b, inertia_entry a b ms pts == inertia_entry b a ms pts).
+Proof. intros ms pts HL HM. split; [exact (inertia_trace ms pts HL HM)|intros a b; exact (inertia_symmetric ms pts a b)]. Qed.
+Print Assumptions inertia_tensor_trace_symmetric.
+
+(* indices='residues' / 'chains': the groups cover every atom exactly once, in order *)
+Theorem order_groups_partition : forall l,
+  concat (residue_groups 0 l) = seq 0 (natoms l) /\ concat (chain_groups 0 None [] l) = seq 0 (natoms l).
+Proof. intros l. split; [exact (residue_groups_partition l 0)|exact (chain_groups_partition l)]. Qed.
+Print Assumptions order_groups_partition.
+
 (* ================================================================== DRID *)
 (* the one-pass update of moments.cpp yields the mean and the second and third central moments *)
 Theorem online_moments_eq_batch : forall xs, xs <> [] ->
@@ -244,6 +316,20 @@ Theorem rdf_bins_partition : forall bs x,
     forall j' lo' hi' l', bounds bs j' = Some (lo', hi', l') -> in_bin lo' hi' l' x -> j' = j.
 Proof. exact bins_partition. Qed.
 Print Assumptions rdf_bins_partition.
+
+(* compute_rdf_t: the per-chunk normalisation and the weighted average over chunks of n_concurrent_pairs equal
+   count / ((n_pairs / period_length) * sum(1/V) * V_shell) for any chunk sizes *)
+Theorem rdf_t_entry : forall ncp period siv v cs,
+  (forall cn, In cn cs -> ~ snd cn == 0) -> ~ ncp == 0 -> ~ period == 0 -> ~ siv == 0 -> ~ v == 0 ->
+  ~ qsumr (map snd cs) == 0 ->
+  chunk_avg ncp period siv v cs == qsumr (map fst cs) / (qsumr (map snd cs) / period * siv * v).
+Proof. exact rdf_t_chunks. Qed.
+Print Assumptions rdf_t_entry.
+
+Theorem rdf_histogram_additive : forall bs xs ys k,
+  count_bin bs (xs ++ ys) k = (count_bin bs xs k + count_bin bs ys k)%nat.
+Proof. exact count_bin_app. Qed.
+Print Assumptions rdf_histogram_additive.
 
 (* ================================================================== Karplus *)
 Theorem karplus_form : forall A B C c,
